@@ -29,7 +29,7 @@ def check(ctx, al, G, m, u, v, start, end, conv):
     q = dict(u=u, v=v, start=start, end=end)
     ctx.case["query"] = q
     try:
-        DG, sources, targets, ntype, ttype = al.temporal_dag(G, u, v, start, end)
+        DG, sources, targets, ntype, ttype = _paths.tdag(al, ctx.rng, G, u, v, start, end)
     except Exception as ex:
         if raised_in_library(ex):
             ctx.violation("raised", dict(q, exception=repr(ex)))
